@@ -244,9 +244,11 @@ def apply_param_filter(el, prop):
     except KeyError:
         return False
 
+    # vobject keeps the values of a parameter in a list
+    values = value if isinstance(value, list) else [value]
     for subel in el:
         if subel.tag == "{urn:ietf:params:xml:ns:carddav}text-match":
-            if not apply_text_match(subel, value):
+            if not any(apply_text_match(subel, v) for v in values):
                 return False
         else:
             raise AssertionError("unknown tag %r in param-filter", subel.tag)
